@@ -118,6 +118,9 @@ class Position(NamedTuple):
                 break
 
         if target_line_index == -1:
+            # End of text. We're still on the last line unless it is terminated.
+            if lines and lines[-1] == self.text.splitlines()[-1]:
+                return len(lines), len(lines[-1]) + 1
             return len(lines) + 1, 1
 
         # 1-based
